@@ -108,13 +108,13 @@ package peer
 //@ func EncryptToEd25519
 //@   assert at call invoke.Seal: same(arg3, msgPubKey) && same(arg1, msgNonce) && same(arg0, prefix)
 //@ func DecryptWithEd25519
-//@   noframe
+//@   fresh ret0
 //@   assert at call invoke.Open: len(arg3) == 32 && same(arg1, msgNonce) && content(arg2) == ciphertext[36..]
 //@   assert at call invoke.Open: forall i int :: 0 <= i && i < 32 ==> arg3[i] == msgPubKey[i]
 //@ func EncryptToPubKey
 //@   requires pubKeyOK(pubKey)
 //@ func DecryptWithPrivKey
-//@   noframe
+//@   fresh ret0
 //@   requires privKeyOK(privKey)
 
 // ---- C10: peer IDs faithfully encode public keys ----
